@@ -253,7 +253,11 @@ void DocumentBuilder::proc_edge_begin(const char* from, const char* to, const bo
 
 void DocumentBuilder::proc_edge_end(const char* from, const char* to) { popFrame(); }
 
-void DocumentBuilder::proc_select(const char* id) { addSelectSymbolToFrame(id, currentEdge->select, position); }
+void DocumentBuilder::proc_select(const char* id)
+{
+    // the select frame of the edge is on top of the frame stack (a dummy frame if the edge could not be created)
+    addSelectSymbolToFrame(id, frames.top(), position);
+}
 
 void DocumentBuilder::proc_guard()
 {
